@@ -84,6 +84,20 @@ Fixpoint quit_loop_l (now : Z) (all bang : bool) (lk : links) (bufs : list buf) 
       end
     else quit_loop_l now all bang lk rest fs sch
   end.
+Fixpoint quit_marks_l (now : Z) (all bang : bool) (lk : links) (bufs : list buf) (fs : fsys) (sch : list outcome) : list buf :=
+  match bufs with
+  | [] => []
+  | bf :: rest =>
+    if negb all && negb bang && b_dirty bf then bufs
+    else if all then
+      let '(st, fs', r) := lbuf_save_l now (b_lines bf) 0 (length (b_lines bf)) lk (b_path bf) bang (b_mtime bf) fs sch in
+      match st with
+      | SOk => {| b_lines := b_lines bf; b_path := b_path bf; b_mtime := mtime_of lk fs' (b_path bf); b_dirty := false |}
+               :: quit_marks_l now all bang lk rest fs' r
+      | _ => bufs
+      end
+    else bf :: quit_marks_l now all bang lk rest fs sch
+  end.
 Definition ec_quit_l (now : Z) (wr isx all bang : bool) (lk : links) (bufs : list buf) (fs : fsys) (sch : list outcome)
   : bool * status * list buf * fsys * list outcome :=
   match bufs with
@@ -92,10 +106,11 @@ Definition ec_quit_l (now : Z) (wr isx all bang : bool) (lk : links) (bufs : lis
     if wr then
       let '(st, b0', fs', r) := ec_write_l now isx bang None lk (b_path b0) b0 fs sch in
       match st with
-      | SOk => let '(q, st2, fs2, r2) := quit_loop_l now all bang lk (b0' :: rest) fs' r in (q, st2, b0' :: rest, fs2, r2)
+      | SOk => let '(q, st2, fs2, r2) := quit_loop_l now all bang lk (b0' :: rest) fs' r in
+               (q, st2, quit_marks_l now all bang lk (b0' :: rest) fs' r, fs2, r2)
       | _ => (false, st, bufs, fs', r)
       end
-    else let '(q, st2, fs2, r2) := quit_loop_l now all bang lk bufs fs sch in (q, st2, bufs, fs2, r2)
+    else let '(q, st2, fs2, r2) := quit_loop_l now all bang lk bufs fs sch in (q, st2, quit_marks_l now all bang lk bufs fs sch, fs2, r2)
   end.
 
 (* ------------------------------------------------------------------ foreign writers *)
